@@ -363,11 +363,15 @@ output_dtype : {self.output_dtype}
             )
 
         input_ndim = len(self.input_shape)
-        if argnum > input_ndim - 1:
+        if argnum < -input_ndim or argnum > input_ndim - 1:
             raise ValueError(
                 f"Parameter argnum to freeze must be less than the number of input arguments to "
                 f"this operator ({input_ndim}); got {argnum}."
             )
+        if argnum < 0:
+            # a negative index counts from the last block (it is compared with block
+            # positions below, so it has to be normalized)
+            argnum += input_ndim
 
         if val.shape != self.input_shape[argnum]:
             raise ValueError(
